@@ -139,6 +139,12 @@ func parseCodeDirectory(blob []byte, itype uint32) (*CodeDirectory, error) {
 		// all zero
 		return nil
 	}
+	// all of the slots have to fit inside of the blob
+	if first := int64(hashBase) - int64(hdr.SpecialSlotCount)*int64(hashLen); first < 0 {
+		return nil, errShort
+	} else if end := int64(hashBase) + int64(hdr.CodeSlotCount)*int64(hashLen); end > int64(len(blob)) {
+		return nil, errShort
+	}
 	dir.CodeHashes = make([][]byte, hdr.CodeSlotCount)
 	for i := 0; i < int(hdr.CodeSlotCount); i++ {
 		dir.CodeHashes[i] = slot(i)
